@@ -90,10 +90,13 @@ def atoms():
     A = [Polynomial.fromname(v) for v in 'xyz'] + [Polynomial(c) for c in CONSTS] + [Polynomial('x'), Polynomial('-y'),
          Polynomial([[2, 'x'], [3, 'y']]), Polynomial([[1, 'x', 'x'], [-1, 'y']]), Polynomial([]),
          # non-homogeneous: one monomial is a prefix of another (x < x*y in the monomial order, but x*z > x*y*z)
-         Polynomial([[1, 'x'], [1, 'x', 'y']]), Polynomial([[3], [1, 'y'], [-2, 'y', 'z']])]
+         Polynomial([[1, 'x'], [1, 'x', 'y']]), Polynomial([[3], [1, 'y'], [-2, 'y', 'z']]),
+         # single terms in two distinct variables
+         Polynomial([[2, 'x', 'y']]), Polynomial([[-1, 'x', 'z', 'z']])]
     B = [RationalPolynomial.fromname(v) for v in 'xyz'] + [RationalPolynomial([[c]]) for c in CONSTS] + \
         [RationalPolynomial([[1, 'x']], [[1, 'y']]), RationalPolynomial([]), RationalPolynomial([[1, 'x'], [1, 'y']], [[2, 'z']]),
-         RationalPolynomial(Polynomial([[1, 'x'], [-1, 'y']])), RationalPolynomial([[1, 'x'], [1, 'x', 'y']]), RationalPolynomial([[1, 'y']], [[3]])]
+         RationalPolynomial(Polynomial([[1, 'x'], [-1, 'y']])), RationalPolynomial([[1, 'x'], [1, 'x', 'y']]), RationalPolynomial([[1, 'y']], [[3]]),
+         RationalPolynomial([[3, 'x', 'z']], [[1, 'y']]), RationalPolynomial([[2, 'x', 'y']])]
     out = []
     for o in A + B:
         f = form(o)
@@ -326,6 +329,29 @@ def cancel_check(task):
     return res.asdict()
 
 
+def samefn_check(groups):
+    """Differently represented states that denote the same function: their difference must test as zero (whatever the
+    internal form of either is), their sum must denote twice the function."""
+    res = Result()
+    for forms in groups:
+        objs = [build(f) for f in forms]
+        d0 = den(forms[0])
+        for i in range(len(forms)):
+            for j in range(len(forms)):
+                if i == j:
+                    continue
+                for name, op, want in (('sub', lambda x, y: x - y, d0 - d0), ('add', lambda x, y: x + y, d0 + d0)):
+                    res.transitions += 1
+                    case = {'op': name, 'left': forms[i], 'right': forms[j]}
+                    try:
+                        out = op(objs[i], objs[j])
+                    except Exception as e:
+                        res.violate(violation(f'{name}:raises', f'{name}({forms[i]}, {forms[j]}) raises {type(e).__name__}: {e}', case, str(want), repr(e)))
+                        continue
+                    check_result(res, name + ':same-function', (forms[i], forms[j]), out, want, case)
+    return res.asdict()
+
+
 def sympy_check(forms):
     """tosympy() of every state denotes the same rational function."""
     import sympy
@@ -418,6 +444,31 @@ def drive(ctx):
         for out in ctx.map('cancel_check', [(ch, group) for ch in chunks(group, 48) if ch]):
             agg['extra']['cancellation_pairs'] = agg['extra'].get('cancellation_pairs', 0) + out['transitions']
             merge(agg, out)
+    # states of all levels that denote the same function through different representations
+    pts = [{'x': Fraction(3, 7), 'y': Fraction(-5, 3), 'z': Fraction(11, 2)}, {'x': Fraction(-2, 5), 'y': Fraction(7, 4), 'z': Fraction(1, 3)}]
+    byfn = {}
+    for f in seen:
+        if f in BIG or f in big_atoms():
+            continue
+        dd = den(f)
+        if dd is None:
+            continue
+        try:
+            key = (f[0],) + tuple(dd.evaluate(pt) for pt in pts)
+        except ZeroDivisionError:
+            continue
+        byfn.setdefault(key, []).append(f)
+    groups = []
+    for key, fs in byfn.items():
+        if len(fs) < 2:
+            continue
+        fs = [f for f in fs if den(f).same(den(fs[0]))][:(4 if tier == 'quick' else 6)]
+        if len(fs) >= 2:
+            groups.append(fs)
+    agg['extra']['same_function_groups'] = len(groups)
+    for out in ctx.map('samefn_check', [ch for ch in chunks(groups, 40) if ch]):
+        agg['extra']['same_function_pairs'] = agg['extra'].get('same_function_pairs', 0) + out['transitions']
+        merge(agg, out)
     # tosympy on every state of level <= 2 (+ a cap of level 3), == on all pairs of level <= 2 states
     sy = l12 + levels[3][:(300 if tier == 'quick' else 4000)]
     for out in ctx.map('sympy_check', chunks(sy, 32)):
